@@ -613,7 +613,12 @@ func (s *Scope) evalCall(e *Expr) *Val {
 		return &Val{K: KScalar, T: t, Ty: uintType(bvWidth(t.Sort))}
 	case "fresh":
 		// fresh(p): p was allocated during the call
-		return scalar(ILe(IntLitI(birthBase), RefRoot(argv(0).T)), boolT)
+		a := argv(0)
+		r := a.T
+		if a.K == KSlice {
+			r = a.Base
+		}
+		return scalar(ILe(IntLitI(birthBase), RefRoot(r)), boolT)
 	case "typeis":
 		// typeis(x, "pkg.T") : dynamic type of interface value
 		a := argv(0)
